@@ -202,6 +202,7 @@ func init() {
 	}
 	delete(intrinsics, "github.com/iotaledger/hive.go/lo.IsNil")
 	registerAtomics()
+	registerHash()
 	registerTime()
 }
 
